@@ -207,8 +207,14 @@ def c13(tier='quick', seed=0):
     # (non-overwriting set_rules, late register_default + load) since the last validation
     import warnings
     step = max(1, len(cases) // (150 if tier == 'quick' else 1500))
-    for ci in range(0, len(cases) - 1, step):
-        first, second = cases[ci], cases[ci + 1]
+    # fixed pairs first (independent of the seed): a clean rule set that grows an undefined reference, a self loop, a cycle
+    # through an existing name, a reference under not; and a bad one that is repaired
+    fixed_pairs = [({'n0': 'role:x'}, {'n1': 'rule:zzz'}), ({'n0': 'role:x'}, {'n1': 'rule:n1'}),
+                   ({'n0': 'rule:n1', 'n1': 'role:x'}, {'n1': 'rule:n0'}), ({'n0': 'role:x'}, {'n1': 'role:y and not rule:nowhere'}),
+                   ({'n0': 'role:x', 'n1': 'rule:n0'}, {'n0': 'not (rule:n1 or role:z)'}), ({'n0': 'rule:zzz'}, {'zzz': 'role:x'}),
+                   ({'n0': 'rule:n0'}, {'n0': 'role:x'}), ({'n0': 'role:x'}, {'n2': 'role:y'})]
+    pairs = fixed_pairs + [(cases[ci], cases[ci + 1]) for ci in range(0, len(cases) - 1, step)]
+    for ci, (first, second) in enumerate(pairs):
         for how in ('update', 'late-default'):
             e = mk_enforcer()
             e.set_rules(policy.Rules.from_dict(first), use_conf=False)
